@@ -1,6 +1,8 @@
 (** C16 — token level: the guard of the document theorem.  Every name, number and enum value is a
     non-empty run of word characters ([word_atom]: true of every GraphQL Name and number lexeme);
-    every string value is printed on one line and is [plain_line] ([line_lit]); no #import lines
+    every string value is either printed on one line and [plain_line] ([line_lit]) or a multi-line
+    value accepted by [blk] (a parameter: none under nitrogql's raw reading, [block_lit] under the
+    specification's); no #import lines
     (comments to a GraphQL lexer); a union *extension* has members and a schema *definition* has
     root operations (the printer writes a dangling equals sign / an empty brace pair otherwise).
     Same shape as the [_ok] family of Model.v.  Definitions only. *)
@@ -9,6 +11,14 @@ Local Open Scope N_scope.
 
 Definition word_atom (x : str) : bool := match x with [] => false | _ => forallb wordc x end.
 Definition line_lit (x : str) : bool := negb (is_multiline x) && plain_line x.
+
+(** multi-line values whose block string reads back under the specification: no three quotes in a row,
+    not ending in a quote or a backslash, no carriage return *)
+Definition block_lit (x : str) : bool := is_multiline x && plain_block x && no_cr x.
+
+Section Guard.
+Variable blk : str -> bool.
+Definition str_lit (x : str) : bool := line_lit x || blk x.
 
 Definition id_lx (i : ident) : bool := word_atom (iname i).
 
@@ -20,7 +30,7 @@ Fixpoint value_lx (v : value) : bool :=
   | VVar n _ => word_atom n
   | VInt _ l => word_atom l
   | VFloat _ l => word_atom l
-  | VString _ x => line_lit x
+  | VString _ x => str_lit x
   | VBool _ _ => true
   | VNull _ => true
   | VEnum _ x => word_atom x
@@ -56,12 +66,12 @@ Definition fragdef_lx (f : fragdef) : bool :=
   id_lx (fr_name f) && id_lx (fr_cond f) && dirs_lx (fr_dirs f) && selset_lx (fr_sel f).
 Definition importdef_lx (i : importdef) : bool :=
   forallb (fun t => match t with ImpWildcard => true | ImpName n => id_lx n end) (im_targets i)
-  && line_lit (im_path i).
+  && str_lit (im_path i).
 Definition execdef_lx (d : execdef) : bool :=
   match d with DOp o => opdef_lx o | DFrag f => fragdef_lx f | DImport i => false end.
 Definition opdoc_lx (d : opdoc) : bool := forallb execdef_lx (od_defs d).
 
-Definition desc_lx (d : option desc) : bool := match d with Some x => line_lit (desc_value x) | None => true end.
+Definition desc_lx (d : option desc) : bool := match d with Some x => str_lit (desc_value x) | None => true end.
 Definition inputval_lx (i : inputvaldef) : bool :=
   desc_lx (iv_desc i) && id_lx (iv_name i) && ty_lx (iv_type i) && ovalue_lx (iv_default i) && dirs_lx (iv_dirs i).
 Definition oargsdef_lx (a : option (list inputvaldef)) : bool :=
@@ -99,3 +109,12 @@ Definition tsdef_lx (x : tsdef) : bool :=
   | TSTypeExt t => typeext_lx t
   end.
 Definition tsdoc_lx (d : tsdoc) : bool := forallb tsdef_lx d.
+
+End Guard.
+
+(** the two instances *)
+Definition no_blk (x : str) : bool := false.
+Definition tsdoc_lx_raw : tsdoc -> bool := tsdoc_lx no_blk.
+Definition opdoc_lx_raw : opdoc -> bool := opdoc_lx no_blk.
+Definition tsdoc_lx_spec : tsdoc -> bool := tsdoc_lx block_lit.
+Definition opdoc_lx_spec : opdoc -> bool := opdoc_lx block_lit.
